@@ -485,14 +485,17 @@ func (t *T) cut(avail, n int) int {
 	case "marks":
 		// positions (relative to the first undelivered byte) of the marked bytes in reach
 		var pos []int
-		for i := 0; i < max+3 && t.delivered+i < len(t.out) && len(pos) < 8; i++ {
+		for i := 0; i < max+3 && t.delivered+i < len(t.out) && len(pos) < 64; i++ {
 			if strings.IndexByte(t.Plan.Marks, t.out[t.delivered+i]) >= 0 {
 				pos = append(pos, i)
 			}
 		}
-		if len(pos) == 0 || t.Plan.Marks == "" {
+		// (the anchor is drawn from all marked bytes in reach, so a read takes about half of what
+		// is there on average: the stream is not delivered in tiny reads throughout)
+		switch {
+		case len(pos) == 0:
 			m = 1 + t.rng.IntN(max)
-		} else {
+		default:
 			m = pos[t.rng.IntN(len(pos))] + t.rng.IntN(12) - 2
 			if m < 1 {
 				m = 1
